@@ -18,7 +18,7 @@ Clause(name, e) == IF e THEN TRUE ELSE PrintT(<<"FAIL", Traces[tid].tid, l, name
 IsOp(o) == l <= Len(Ev) /\ Ev[l].op = o /\ l' = l + 1 /\ UNCHANGED tid
 C == Traces[tid].cfg
 TraceInit == /\ tid \in 1..Len(Traces) /\ l = 1
-             /\ cfg = [pattern |-> C.pattern, mols |-> C.mols, order |-> <<>>]
+             /\ cfg = [pattern |-> C.pattern, mols |-> C.mols, order |-> <<>>, clones |-> {}]
              /\ pc = "load" /\ avail = <<>> /\ blocks = <<>> /\ loaded = {} /\ nload = 0 /\ obs = <<>>
 ObsList(s) == [i \in 1..Len(s) |-> [sp |-> s[i][1], first |-> s[i][2], n |-> s[i][3]]]
 TrAdd == /\ IsOp("AddTop")
